@@ -104,6 +104,7 @@ class World {
   bool bus_side_connected(int ci) const;   // white-box: the bus still holds a live connection for this client
   int config_loads = 0;                 // completed top-level bus_config_load() calls (start-up is the first)
   bool last_config_load_ok = false;     // ... and whether the last one produced a parser
+  void set_unique_counter(int major, int minor);      // hook H1: the next unique name the bus hands out
   void rewrite_config(const std::string &config_xml);   // what a later ReloadConfig will read
   void start_bus(const std::string &config_xml, int uniq_major = 0, int uniq_minor = 0);
   bool bus_running() const { return ctx != nullptr; }
